@@ -263,3 +263,65 @@ pub fn run_slow_drain(spec: Spec, chunk: usize, pause: Duration) -> CliRun {
     };
     CliRun { stdout: out, stderr, code, signal: if timed_out { None } else { signal }, timed_out, spawn_error: None }
 }
+
+/// Run with stdin fed in small chunks with pauses, so that the child's reads return short counts.
+pub fn run_chunked_stdin(spec: Spec, data: &[u8], chunk: usize, pause: Duration) -> CliRun {
+    let exe = match spec.exe {
+        Some(p) => p.to_path_buf(),
+        None => std::env::current_exe().expect("current_exe"),
+    };
+    let mut cmd = Command::new(exe);
+    cmd.args(&spec.args).stdout(Stdio::piped()).stderr(Stdio::piped()).stdin(Stdio::piped());
+    cmd.env_remove("RUST_BACKTRACE");
+    let mut child = match cmd.spawn() {
+        Ok(c) => c,
+        Err(e) => return CliRun { stdout: vec![], stderr: vec![], code: None, signal: None, timed_out: false, spawn_error: Some(e.to_string()) },
+    };
+    let mut si = child.stdin.take().unwrap();
+    let owned = data.to_vec();
+    let feeder = std::thread::spawn(move || {
+        for c in owned.chunks(chunk.max(1)) {
+            if si.write_all(c).is_err() {
+                break;
+            }
+            let _ = si.flush();
+            std::thread::sleep(pause);
+        }
+    });
+    let mut so = child.stdout.take().unwrap();
+    let mut se = child.stderr.take().unwrap();
+    let t_out = std::thread::spawn(move || {
+        let mut v = Vec::new();
+        let _ = so.read_to_end(&mut v);
+        v
+    });
+    let t_err = std::thread::spawn(move || {
+        let mut v = Vec::new();
+        let _ = se.read_to_end(&mut v);
+        v
+    });
+    let start = Instant::now();
+    let mut timed_out = false;
+    let status = loop {
+        match child.try_wait() {
+            Ok(Some(s)) => break Some(s),
+            Ok(None) => {
+                if start.elapsed() > spec.timeout {
+                    timed_out = true;
+                    let _ = child.kill();
+                    break child.wait().ok();
+                }
+                std::thread::sleep(Duration::from_micros(300));
+            }
+            Err(_) => break None,
+        }
+    };
+    let _ = feeder.join();
+    let stdout = t_out.join().unwrap_or_default();
+    let stderr = t_err.join().unwrap_or_default();
+    let (code, signal) = match status {
+        Some(s) => (s.code(), s.signal()),
+        None => (None, None),
+    };
+    CliRun { stdout, stderr, code, signal: if timed_out { None } else { signal }, timed_out, spawn_error: None }
+}
